@@ -645,6 +645,40 @@ pub fn c15(c: &Collector, g: &mut Guard) {
         if matches!(t.op, Op::Reset) {
             local.count("bfs_resets");
             c15_compare(c, t, "E2.bfs.reset", local, 1);
+            // "from then on the same input produces the same state as on a new screen": one more
+            // step of every mixed-alphabet op on both, whatever the state key says (a cache or a
+            // field the key does not know about would only show here)
+            if let Ok((s, _, _)) = t.outcome {
+                let mut a = s.clone();
+                a.savepoints.clear();
+                let b = Screen::new(a.columns, a.lines);
+                for op in mixed_alphabet(&a) {
+                    if matches!(op, Op::RestoreCursor) {
+                        continue;
+                    }
+                    let (ra, rb) = (run_op(&a, &op), run_op(&b, &op));
+                    local.transitions += 2;
+                    local.count("continuations_after_reset");
+                    if let (Ok((_, xa, _)), Ok((_, xb, _))) = (&ra, &rb) {
+                        if xa != xb {
+                            let diffs = compare(xb, xa, &Default::default(), &ALL_COMPS);
+                            viol(
+                                c,
+                                "C15",
+                                "E2.bfs.reset.continuation",
+                                t,
+                                "continuation-differs",
+                                format!(
+                                    "after reset, {} behaves differently than on a new screen: {}",
+                                    op.short(),
+                                    diffs.first().map(|d| d.1.clone()).unwrap_or_else(|| "dirty".into())
+                                ),
+                            );
+                            break;
+                        }
+                    }
+                }
+            }
             return false; // the power-on state itself is a seed already
         }
         expand_ok(t)
@@ -998,12 +1032,121 @@ pub fn c18(c: &Collector, g: &mut Guard) {
         }
         refine_all(c, "C18", "E4.width-change", t, local);
     });
+    // (3b) the stop set is a function of the HTS / TBC / reset history only: a width change
+    // (resize, DECCOLM set or reset) must neither add nor lose a stop, visible or not
+    let mut rb: Vec<Base> = Vec::new();
+    for w0 in [10u32, 20, 132] {
+        for stops in [vec![w0 - 1], vec![3, w0 - 1], vec![w0 / 2, w0 - 2], vec![], vec![8], vec![0, 16]] {
+            let mut script = vec![Op::Tbc(Some(3))];
+            for st in &stops {
+                if *st < w0 {
+                    script.push(Op::Cha(Some(st + 1)));
+                    script.push(Op::SetTabStop);
+                }
+            }
+            if let Ok(s0) = build(w0, 2, &script) {
+                rb.push(Base { columns: w0, lines: 2, script: script.clone(), screen: s0 });
+            }
+            let mut sc2 = script.clone();
+            sc2.extend([Op::Sm(vec![3], true), Op::Cha(Some(100)), Op::SetTabStop]);
+            if let Ok(s0) = build(w0, 2, &sc2) {
+                rb.push(Base { columns: w0, lines: 2, script: sc2, screen: s0 });
+            }
+        }
+        if let Ok(s0) = build(w0, 2, &[]) {
+            rb.push(Base { columns: w0, lines: 2, script: vec![], screen: s0 });
+        }
+    }
+    sweep(
+        c,
+        &rb,
+        |b| {
+            let w = b.screen.columns;
+            let mut v = vec![Op::Sm(vec![3], true), Op::Rm(vec![3], true), Op::Feed(vec!["\x1b[?3h".into()], true), Op::Feed(vec!["\x1b[?3l".into()], true), Op::Resize(Some(3), None)];
+            for w1 in [1u32, 2, 5, 9, 17, 80, 132, 133] {
+                if w1 != w {
+                    v.push(Op::Resize(None, Some(w1)));
+                }
+            }
+            v
+        },
+        |c, t, local| {
+            if let Ok((_, post, _)) = t.outcome {
+                local.count("width_change_stop_frames");
+                if post.tabstops != t.pre.tabstops {
+                    viol(
+                        c,
+                        "C18",
+                        "E4.width-change.frame",
+                        t,
+                        "stops-changed-by-width-change",
+                        format!("a width change altered the tab stops: {:?} -> {:?} (only HTS, TBC and reset edit them)", t.pre.tabstops, post.tabstops),
+                    );
+                }
+            }
+        },
+    );
+    // (4) histories of HTS / TBC / HT / reset / width changes on small widths (BFS, full-key dedup)
+    let bdepth = if c.thorough() { 6 } else { 4 };
+    let mut seeds: Vec<Base> = Vec::new();
+    for (w, l) in [(10u32, 1u32), (9, 2), (17, 1)] {
+        if let Ok(s0) = build(w, l, &[]) {
+            seeds.push(Base { columns: w, lines: l, script: vec![], screen: s0 });
+        }
+    }
+    let st = bfs(
+        c,
+        &seeds,
+        bdepth,
+        3_000_000,
+        |s| {
+            let w = s.columns;
+            let mut v = vec![
+                Op::Tab,
+                Op::SetTabStop,
+                Op::Tbc(None),
+                Op::Tbc(Some(3)),
+                Op::Cha(Some(1)),
+                Op::Cha(Some(4)),
+                Op::Cha(Some(w)),
+                Op::Cuf(None),
+                Op::Reset,
+                Op::Draw("ab".into()),
+            ];
+            v.push(Op::Resize(None, Some(if w > 8 { 6 } else { 12 })));
+            v
+        },
+        |c, t, local| {
+            if matches!(t.op, Op::Tab | Op::SetTabStop | Op::Tbc(_)) {
+                local.count("bfs_judged");
+                refine_all(c, "C18", "E4.bfs", t, local)
+            } else if matches!(t.op, Op::Reset) {
+                // "after reset, tab stops sit at every 8th column"
+                local.count("bfs_resets");
+                refine(c, "C18", "E4.bfs.reset", t, &[Comp::Tabstops], local) && expand_ok(t)
+            } else if matches!(t.op, Op::Resize(..)) {
+                if let Ok((_, post, _)) = t.outcome {
+                    if post.tabstops != t.pre.tabstops {
+                        viol(c, "C18", "E4.bfs.frame", t, "stops-changed-by-width-change", format!("resize altered the tab stops: {:?} -> {:?}", t.pre.tabstops, post.tabstops));
+                    }
+                }
+                expand_ok(t)
+            } else {
+                expand_ok(t)
+            }
+        },
+    );
+    c.bound("bfs_levels", json!(st.levels));
+    c.bound("bfs_depth", json!(bdepth));
     c.bound("widths_defaults", json!(format!("1..={}", maxw)));
     c.bound("all_subsets_up_to_width", json!(maxsub));
     g.need(c, "defaults_ok");
     g.need(c, "ht_with_stop_to_the_right");
     g.need(c, "ht_without_stop");
     g.need(c, "stale_stop_beyond_width");
+    g.need(c, "width_change_stop_frames");
+    g.need(c, "bfs_judged");
+    g.need(c, "bfs_resets");
     g.need(c, "pre_pending_wrap");
 }
 
